@@ -237,6 +237,48 @@ def detect (toolsLower : List (List Nat)) (raw lowered : List Nat) : Pathway × 
   else if ["==", "!=", "<=", ">=", "<", ">"].any fun op => isInfix (cps op) raw then (.krebs, "d:compare")
   else (.glycolysis, "d:math")
 
+/-! ### size estimates for the `bound` probes (driver only; mirrored by `harness/vf/props/c01.py`) -/
+
+def capN : Nat := 1000000000000
+
+/-- exact value while it stays below 2^64 -/
+def IExpr.exact : IExpr → Option Nat
+  | .lit n => if n < 2 ^ 64 then some n else none
+  | .add a b => do let x ← a.exact; let y ← b.exact; if x + y < 2 ^ 64 then some (x + y) else none
+  | .mul a b => do let x ← a.exact; let y ← b.exact; if x * y < 2 ^ 64 then some (x * y) else none
+  | .pow a b => do
+    let x ← a.exact; let y ← b.exact
+    if y ≤ 64 && x ≤ 2 ^ 16 && x ^ y < 2 ^ 64 then some (x ^ y) else none
+
+/-- upper bound on the bit length of the value (saturating) -/
+def IExpr.up : IExpr → Nat
+  | .lit n => n.log2 + 1
+  | .add a b => min capN (max a.up b.up + 1)
+  | .mul a b => min capN (a.up + b.up)
+  | .pow a b =>
+    let vb := match b.exact with | some y => y | none => if b.up ≤ 40 then 2 ^ b.up else capN
+    min capN (a.up * vb + 1)
+
+/-- lower bound on the bit length of the value (saturating) -/
+def IExpr.low : IExpr → Nat
+  | .lit n => n.log2 + 1
+  | .add a b => max a.low b.low
+  | .mul a b => if a.low = 0 || b.low = 0 then 0 else a.low + b.low - 1
+  | .pow a b =>
+    let vb := match b.exact with | some y => y | none => 2 ^ (min (b.low - 1) 40)
+    min capN ((a.low - 1) * vb + 1)
+
+partial def parseIExpr (toks : List String) : Option (IExpr × List String) :=
+  match toks with
+  | [] => none
+  | t :: rest =>
+    match t.front with
+    | 'I' => some (.lit (natD (t.drop 1).toString), rest)
+    | 'A' => do let (a, r1) ← parseIExpr rest; let (b, r2) ← parseIExpr r1; pure (.add a b, r2)
+    | 'M' => do let (a, r1) ← parseIExpr rest; let (b, r2) ← parseIExpr r1; pure (.mul a b, r2)
+    | 'P' => do let (a, r1) ← parseIExpr rest; let (b, r2) ← parseIExpr r1; pure (.pow a b, r2)
+    | _ => none
+
 /-! ### driver -/
 
 structure DSt where
@@ -311,6 +353,12 @@ def step (st : DSt) (toks : List String) : DSt × String :=
       (st, s!"{((pathwayOfName forced).map pathwayName).getD "none"} ## too-long")
     else
       (st, s!"{pathwayName ((pathwayOfName forced).getD d)} ## " ++ (if forced = "auto" then dtag else "forced"))
+  | "bound" :: _src :: toks =>
+    match parseIExpr toks with
+    | some (e, []) =>
+      if e.up ≤ 100000 then (st, "returned ## b:within" ++ (if e.powFree then "" else " b:small-pow"))
+      else if e.low ≥ 1000000000 then (st, "killed ## b:exceeds") else (st, "gap ## b:gap")
+    | _ => (st, "bad-tree")
   | ["repair", n, d] =>
     let amt := Float.ofNat (natD n) / Float.ofNat (natD d 1)
     let r := st.ros - amt
